@@ -390,7 +390,7 @@ class Check:
             self.violations.append((key, what, replay))
 
     def _write_replay(self, key, what, replay, nofail=False):
-        d = os.path.join(ROOT, "replays")
+        d = os.path.join(ROOT if COQ == COQ_SRC else BUILD, "replays")   # scratch repositories keep their replays apart
         os.makedirs(d, exist_ok=True)
         h = hashlib.sha1((self.prop + key).encode()).hexdigest()[:10]
         p = os.path.join(d, "%s-%s.json" % (self.prop, h))
